@@ -8,7 +8,9 @@ A_WritePoolLock == \E a \in Alloc, c \in Client, v \in 1..M : WritePoolLock(a, c
 A_Upload == \E a \in Alloc, b \in Blob, m \in 1..M : Upload(a, b, m)
 A_Delete == \E a \in Alloc, b \in Blob, m \in 1..M : Delete(a, b, m)
 A_ChallengePass == \E a \in Alloc, b \in Blob, m \in 1..M : ChallengePass(a, b, m)
-A_ChallengePenalty == \E a \in Alloc, b \in Blob, m \in 1..M : ChallengePenalty(a, b, m)
+A_ChallengePenalty == \E a \in Alloc, b \in Blob, m \in 1..M : ChallengePenalty(a, b, m, 0)
+A_ChallengePassAfterFail == \E a \in Alloc, b \in Blob, mp \in 1..M, s \in 0..M, mr \in 0..M : ChallengePassAfterFail(a, b, mp, s, mr)
+A_ChallengePenaltySlashed == \E a \in Alloc, b \in Blob, m \in 1..M, s \in 1..M : ChallengePenaltySlashed(a, b, m, s)
 A_Extend == \E a \in Alloc, b \in Blob, d \in 0..M, up \in BOOLEAN, grow \in BOOLEAN : Extend(a, b, d, up, grow)
 A_AddBlobber == \E a \in Alloc, nb \in Blob : AddBlobber(a, nb)
 A_ReplaceAlive == \E a \in Alloc, ob \in Blob, nb \in Blob, m1 \in 0..M, ch \in 0..ChargeCap : ReplaceAlive(a, ob, nb, m1, ch)
@@ -22,9 +24,11 @@ A_ReadPoolLock == \E c \in Client, v \in 1..M : ReadPoolLock(c, v)
 A_ReadPoolUnlock == \E c \in Client : ReadPoolUnlock(c)
 A_ReadMarker == \E c \in Client, b \in Blob, k \in 0..MaxCtr, s \in BOOLEAN : ReadMarker(c, b, k, s)
 A_FreeAlloc == \E caller \in Client, mk \in Marker, a \in Alloc : FreeAlloc(caller, mk, a)
+A_Reassign == \E i \in 1..IndLimit, t \in 0..TotLimit : Reassign(i, t)
 
-MCNext == A_NewAlloc \/ A_WritePoolLock \/ A_Upload \/ A_Delete \/ A_ChallengePass \/ A_ChallengePenalty \/ A_Extend
+MCNext == A_NewAlloc \/ A_WritePoolLock \/ A_Upload \/ A_Delete \/ A_ChallengePass \/ A_ChallengePenalty
+          \/ A_ChallengePenaltySlashed \/ A_ChallengePassAfterFail \/ A_Extend
           \/ A_AddBlobber \/ A_ReplaceAlive \/ A_ReplaceKilled \/ A_Kill \/ A_Collect \/ A_Tick \/ A_Finalize \/ A_Cancel
-          \/ A_ReadPoolLock \/ A_ReadPoolUnlock \/ A_ReadMarker \/ A_FreeAlloc
+          \/ A_ReadPoolLock \/ A_ReadPoolUnlock \/ A_ReadMarker \/ A_FreeAlloc \/ A_Reassign
 MCSpec == Init /\ [][MCNext]_vars
 =============================================================================
